@@ -73,9 +73,9 @@ def run(ctx, prop="C08"):
         evs, keys, info = pipeline.project(tr, get, sid, cmdmap)
         table = {}
         for (q, n, srt, rev) in keys:
-            inp, excluded = info.get(rev, (-1, []))
+            inp, excluded, nth = info.get(rev, (-1, [], ""))
             src = lines if inp == -1 else relines[inp]
-            table[pipeline.okey(sid, q, n, srt, rev)] = pipeline.oracle(fzf_oracle, src, q, n, srt, excluded=excluded)
+            table[pipeline.okey(sid, q, n, srt, rev)] = pipeline.oracle(fzf_oracle, src, q, n, srt, excluded=excluded, nth=nth)
         return sid, evs, table
     results = {}
     with ThreadPoolExecutor(max_workers=6) as ex:
